@@ -38,6 +38,8 @@ HX int h_stft_rt(const double* x, int nx, int kind, int nwin, int sym, int overl
     return r.size();
     H_END
 }
+// one-argument overload: the transform size is the number of bins given
+HX int h_irfft1(const double* X, int nb, int n, double* y) { H_TRY arr_real r = irfft(mk_cmplx(X, nb)); put_real(r, y); return r.size(); H_END }
 // an odd-length request (rejected) first, then the even one: the rejection must leave nothing behind
 HX int h_irfft_after_odd(const double* X, int nb, int n, double* y) {
     try { arr_real t = irfft(mk_cmplx(X, nb), n + 1); (void)t; } catch (...) {}
